@@ -582,7 +582,7 @@ class ClockTask():
     def _wakeup(self, time):
         try:
             _libsc3.main._update_logical_time(time)
-            beats = self.clock.secs2beats(time)
+            beats = self.beats  # The exact beat, not secs2beats(time).
             delta = self.task.__awake__(self.clock)
             if isinstance(delta, (int, float)) and not isinstance(delta, bool)\
             and delta != float('inf'):  # As in sched.
